@@ -33,10 +33,26 @@
        The property speaks of content, not text: no finding.
    "loads on its own": C10_file_self_contained = C10_text_is_projection (ser_heap = ser_elem of fproj on elements that
        are not hollow) composed with C01's file round trip; side conditions explicit: NoHollow, RootCanon (C01).
-   op2: OpLoad is PENDING (no heap-level invariant theorem; the membership after merges is C09_merge_union /
-       C09_file_projection on the pure model, class Good, tied to the heap by C09_load_refines) and OpDuplicate is
-       PENDING for FilesInv of the copy (C10_duplicate_partial: FilesOwned and the old models are kept); these two are
-       also the known finding C10-merge-membership-inconsistent.
+   op2 (Tree/Script2.v), load_buffer and duplicate included:
+       * C10_history2_owned_full / C10_reachable2_owned_full: Inv3 = Core /\ FilesOwned /\ NamesUnique (every file listed
+         in a model names that model; the file names of a model are pairwise different) is an invariant of EVERY history
+         over the whole alphabet outside C03's Known_load (a merge that uses an incoming element twice; a load rejected
+         with InvalidFileMerge: the rollback).  C10_files_owned_step2, C10_names_unique_step: the steps.
+       * FilesInv itself is NOT an invariant of histories with load_buffer, for two genuine reasons, both with
+         witnesses reached through the API: rule (c) (own sets only below splittable parents) is not kept by a merge
+         (C10_load_rule_c_witness), and (b) fails when the root is not in all files of the model
+         (C10_load_root_partial_witness = the known finding C10-merge-membership-inconsistent).  What a successful
+         load keeps is FilesInvW = (a),(b),(d) together with RootFull: C10_load_merge(_abs) (through agent-c09's
+         refinement: pure invariant C10_pmerge_invariant, bridge C10_bridge_*, C10_model_is_tree; hypotheses: Clean
+         walk and success of the pure merge, as in C09_load_refines), C10_load_first, C10_load_good (Good masters),
+         C10_load_files(_owned) (unconditional).  TreeInv (RootsOnly) is not kept by the first load either
+         (C03: Known_load_first), so histories through loads can only carry Core-level invariants.
+       * the copy made by duplicate(): C10_duplicate_membership (the membership phase carries FilesInvW over, roots
+         equal up to ids), C10_duplicate_file_map, C10_duplicate_copy (public call, scope of C13_duplicate_text but for
+         split models); outside: C13-dup-version-filter (C13_duplicate_refuted) and C13-dup-foreign-membership
+         (excluded by FilesInvW (a)); C10_duplicate_partial: FilesOwned and the old models are kept.
+       * C10_step2_owned / C10_history2_owned: sort, sort model, set_version, check, serialize keep TreeInv, FilesInv and
+         FilesOwned (pending2 = load, duplicate for THESE invariants, for the reasons above).
    [P] C10_remove_file_exact ("removes exactly") carries the side condition that no SHORT-NAME element of the model has
        a local file set: without it a deletion of the scan list can fail and the element stays (finding
        C10-shortname-own-file-set, witness d_short_* in Tree/Files.v); C10_remove_file_exact_index / _refs take
